@@ -65,6 +65,12 @@ Print Assumptions C02_fast_refines_spec.
 Example C02_fast_mask_text_parenthesised : fast_mask_parenthesised = true.
 Proof. reflexivity. Qed.
 
+(* Sim/FastModel.v keeps one store per memory id (fmems : Z -> ...).  That is FastSimulation's
+   behaviour because its key function _mem_varname is `'fs_mem' + str(val.id)` (read off the source:
+   Gen/FastOps.fast_mem_key_uses_id); keyed by NAME, same-named memories of a design would alias. *)
+Example C02_fast_mem_store_keyed_by_id : fast_mem_key_uses_id = true.
+Proof. reflexivity. Qed.
+
 (* ======================= CompiledSimulation: per-builder, every limb count ============== *)
 
 Theorem C02_c_wire_correct : forall wa a wd,
